@@ -217,8 +217,23 @@ func flight4Parse(
 	}
 	state.HandshakeRecvSequence = finishedPull.NextSequence
 
-	if _, ok = finishedPull.Messages[handshake.TypeFinished].(*handshake.MessageFinished); !ok {
+	finished, ok := finishedPull.Messages[handshake.TypeFinished].(*handshake.MessageFinished)
+	if !ok {
 		return 0, &alert.Alert{Level: alert.Fatal, Description: alert.InternalError}, nil
+	}
+
+	// The client's Finished covers every handshake message before it.
+	// https://datatracker.ietf.org/doc/html/rfc5246#section-7.4.9
+	transcriptRules := handshakeRulesThroughClientFinished(cfg.InitialEpoch)
+	transcriptRules = transcriptRules[:len(transcriptRules)-1]
+	expectedVerifyData, err := prf.VerifyDataClient(
+		state.MasterSecret, cache.PullAndMerge(transcriptRules...), state.CipherSuite.HashFunc(),
+	)
+	if err != nil {
+		return 0, &alert.Alert{Level: alert.Fatal, Description: alert.InternalError}, err
+	}
+	if !bytes.Equal(expectedVerifyData, finished.VerifyData) {
+		return 0, &alert.Alert{Level: alert.Fatal, Description: alert.HandshakeFailure}, dtlserrors.ErrVerifyDataMismatch
 	}
 
 	if state.CipherSuite.AuthenticationType() == ciphersuite.AuthenticationTypeAnonymous {
